@@ -22,8 +22,12 @@ def script(name, deps, dur_ms=20, fail=False, always=False, stamp=False, stderr_
         L.append("redo-always")
     if stamp:
         # the checksum is recorded FIRST, the (long) work and the output come after:
-        # between the two the row already says "changed in this run" while the script still runs
-        L.append('echo "out $1" | redo-stamp')
+        # between the two the row already says "changed in this run" while the script still runs.
+        # It covers what the dependencies contain, so an edited source changes it.
+        if deps:
+            L.append('cat %s | redo-stamp' % " ".join(deps))
+        else:
+            L.append('echo "out $1" | redo-stamp')
     L.append('__ws B "$1"')
     for i in range(stderr_lines):
         L.append('echo "line-%d-of-$1" >&2' % i)
